@@ -73,6 +73,24 @@ def check_round(ctx, iso3, options, k, cap, title, interp, case):
         pct = np.asarray(getattr(interp, name).kcals, float)
         if relerr(pct, got[col] / Kd * 100.0) > 1e-9:
             ctx.fail("percent-series-differs-from-kcal-series:" + name, "%s round %d" % (iso3, k + 1), case)
+    # the fat and protein parts of the contributions the LP allocates directly: allocation x the food's documented fat / protein
+    # content, as a percentage of the population's monthly fat / protein need
+    nut = c["inputs"]["NUTRITION"]
+    for name, var, unit, fkey, pkey, dec in (("stored_food", "stored_food_to_humans", 1.0, "SF_FRACTION_FAT", "SF_FRACTION_PROTEIN", 3),
+                                             ("seaweed", "seaweed_to_humans", 1.0, "SEAWEED_FAT", "SEAWEED_PROTEIN", None),
+                                             ("scp", "methane_scp_to_humans", 1.0, "SCP_KCALS_TO_FAT_CONVERSION", "SCP_KCALS_TO_PROTEIN_CONVERSION", None),
+                                             ("cell_sugar", "cellulosic_sugar_to_humans", 1.0, None, None, None)):
+        f = getattr(interp, name)
+        for part, key, daily in (("fat", fkey, nut["FAT_DAILY"]), ("protein", pkey, nut["PROTEIN_DAILY"])):
+            need = P * daily * 30.0 / 1e9                        # thousand tons per month
+            want = v[var] * (float(c[key]) if key else 0.0) / need * 100.0
+            have = np.asarray(getattr(f, part), float)
+            tol_abs = (0.5 * 10 ** (-dec) if dec is not None else 0.0) + 1e-9 * max(1.0, float(np.max(np.abs(want))))
+            if have.shape != want.shape or float(np.max(np.abs(have - want))) > tol_abs:
+                m = int(np.argmax(np.abs(have - want))) if have.shape == want.shape else 0
+                ctx.fail("reported-%s-part-differs-from-allocation:%s" % (part, name),
+                         "%s round %d %s month %d: reported %.9g %% of the %s need, allocation x documented content gives %.9g" %
+                         (iso3, k + 1, name, m, have[m] if have.shape == want.shape else float("nan"), part, want[m]), case)
     if cap["type"] == "to_humans":
         obj = float(cap["obj"])
         gap = (obj - head) / max(1.0, abs(obj))
